@@ -11,6 +11,7 @@
 //   C04 cs <vlist> <vlist> a order | <vlist>     IncrementalPruning::crossSum (private; -fno-access-control)
 //   C04 pj <pomdp> <vlist w> a | O <vlist>*O      Projecter::operator()(w, a)
 //   C04 cb S <belief> a O <vlist>*O | <entry> value     crossSumBestAtBelief(b, row, a, &value)
+//   C04 pbvi <pomdp> nB <belief>* h | <vf>              PBVI(nB, h, 0)(model, beliefs): whole run vs the Lean model pbviRun
 #include "common/verif.hpp"
 #include "common/gen.hpp"
 #include <AIToolbox/Seeder.hpp>
@@ -251,6 +252,22 @@ static void emitPJ(Rng & rng) {
     l << "|"; putEntry(l, e); l << value; l.emit();
 }
 
+// PBVI with an explicit belief list is deterministic and LP-free: the whole run is compared with the Lean model `pbviRun`
+static void emitPBVI(Rng & rng) {
+    size_t S = 2 + rng.below(3), A = 1 + rng.below(3), O = rng.coin() ? 2 : (rng.coin() ? 1 : 4);
+    unsigned h = 1 + (unsigned)rng.below(3);
+    if (O == 4) h = std::min(h, 2u);
+    auto pt = randomPomdp(rng, S, A, O);
+    Model model = toDense(pt);
+    auto bl = someBeliefs(rng, S, 1 + rng.below(S + 3));
+    if (rng.coin(1, 3)) bl.erase(bl.begin(), bl.begin() + std::min<size_t>(bl.size() - 1, S));   // drop the corners sometimes
+    P::PBVI solver(bl.size(), h, 0.0);
+    auto vf = std::get<1>(solver(model, bl));
+    Line l; l << "C04" << "pbvi"; putPomdp(l, pt); l << (size_t)bl.size();
+    for (const auto & b : bl) putVector(l, b);
+    l << h << "|"; putVF(l, vf); l.emit();
+}
+
 // ---------------------------------------------------------------- case table
 static const long kFixed = 16;
 long verif::verif_ncases(const std::string & tier) { return kFixed + (tier == "thorough" ? 25000 : 900); }
@@ -260,7 +277,7 @@ void verif::verif_case(Rng & rng, long idx, const std::string & tier) {
     if (idx == 1) { runSolver(rng, 5, witnessQmdp(), 1); return; }           // QMDP with VI horizon 1 IS a one-step plan
     if (idx >= 2 && idx < 7) { runSolver(rng, (int)idx - 2, tigerTables(), 3); return; }
     if (idx == 7) { runSolver(rng, 0, tigerTables(), 4); return; }
-    if (idx >= 8 && idx < kFixed) { for (int k = 0; k < 12; ++k) { emitXD(rng); emitPR(rng); emitCS(rng); emitPJ(rng); } return; }
+    if (idx >= 8 && idx < kFixed) { for (int k = 0; k < 12; ++k) { emitXD(rng); emitPR(rng); emitCS(rng); emitPJ(rng); emitPBVI(rng); } return; }
     long r = idx - kFixed;
     int which = (int)(r % 6);
     size_t S = 2 + rng.below(3), A = 1 + rng.below(3), O = 1 + rng.below(3);
@@ -275,7 +292,7 @@ void verif::verif_case(Rng & rng, long idx, const std::string & tier) {
     double tol = (rng.coin(1, 8)) ? 0.5 : 0.0;                                // early stop on tolerance: shorter value function
     if (std::getenv("VERIF_DEBUG")) std::fprintf(stderr, "case %ld: %s S=%zu A=%zu O=%zu h=%u ugly=%d sparse=%d tol=%g\n", idx, kSolvers[which], S, A, O, h, (int)ugly, (int)sparse, tol);
     runSolver(rng, which, pt, h, tol, sparse);
-    if (r % 10 == 0) { emitXD(rng); emitPR(rng); emitCS(rng); emitPJ(rng); }
+    if (r % 10 == 0) { emitXD(rng); emitPR(rng); emitCS(rng); emitPJ(rng); emitPBVI(rng); }
 }
 
 VERIF_MAIN
